@@ -34,6 +34,10 @@ pub fn grid() -> Vec<Point> {
         let n: i64 = v.parse().unwrap();
         add("num_workers", v, n >= 1);
     }
+    // numbers that are not integers: never a value of an integer setting, whatever they round to
+    for (k, v) in [("batch_size", "64.5"), ("batch_size", "8.0"), ("batch_size", "6e1"), ("fault_percentage", "50.9"), ("fault_percentage", "0.5"), ("fault_percentage", ".nan"), ("fault_percentage", "-0.5"), ("port", "65535.9"), ("port", "2002.0"), ("num_workers", "2.5"), ("status_interval", "6e2"), ("status_interval", "1.5"), ("health_check_port", "8000.5")] {
+        add(k, v, false);
+    }
     for v in ["1", "10", "60", "600", "65535"] {
         add("status_interval", v, true);
     }
@@ -122,7 +126,14 @@ fn gen(seed: u64, idx: u64, _tier: Tier) -> Plan {
     plan.world.round_robin = false;
     plan.world.latency_jitter_us = 0;
     plan.world.cost_scale = 1000;
+    let integer_key = matches!(pt.key, "port" | "batch_size" | "fault_percentage" | "num_workers" | "status_interval" | "health_check_port");
     match pt.key {
+        // a value that is no integer is written as it stands, in place of the generated line
+        _ if integer_key && pt.value.parse::<i64>().is_err() => {
+            s.omit.push(pt.key.to_string());
+            let k = if source == ConfigSource::Env { format!("ROUGHENOUGH_{}", pt.key.to_uppercase()) } else { pt.key.to_string() };
+            s.extra.push((k, pt.value.clone()));
+        }
         "port" => s.port = pt.value.parse().unwrap(),
         "batch_size" => s.batch_size = pt.value.parse().unwrap(),
         "fault_percentage" => {
